@@ -1093,6 +1093,130 @@ theorem handleHousekeeping_PW (s : Sys F) (now : Nat) (hc : s.cfg.classic = true
   · exact Or.inl ⟨p.trans a, q.trans b⟩
   · exact Or.inr ⟨p.trans a, r.trans b, t.trans c, q.trans d, e⟩
 
+/-! ## Uplink datagrams and the periodic flush -/
+
+theorem handleKeepaliveResponse_core (l : FLink F) (data : List UInt8) (now : Nat) :
+    (l.handleKeepaliveResponse data now).1.core = l.core := by
+  unfold FLink.handleKeepaliveResponse
+  split
+  · rfl
+  · split
+    · dsimp only
+      split <;> rfl
+    · rfl
+
+theorem recordRttProbe_window (l : FLink F) :
+    l.recordRttProbe.core.window = l.core.window ∧ l.recordRttProbe.core.connected = l.core.connected := by
+  unfold FLink.recordRttProbe
+  split
+  · split <;> exact ⟨rfl, rfl⟩
+  · exact ⟨rfl, rfl⟩
+
+/-- What handling one uplink datagram does to the arrival link's window before the ACK/NAK fan-out:
+nothing, or (REG_ERR) the tear-down to the initial window. -/
+theorem processUplinkPacket_window (l : FLink F) (idx : Nat) (reg : Reg.Reg) (ck : Bool) (data : List UInt8) (now : Nat) :
+    (processUplinkPacket l idx reg ck data now).1.core.window = l.core.window ∨
+    ((processUplinkPacket l idx reg ck data now).1.core.window = 20000 ∧
+      (processUplinkPacket l idx reg ck data now).1.core.connected = false) := by
+  have hI := wconsts.2.2.1
+  unfold processUplinkPacket
+  dsimp only
+  have key := handleKeepaliveResponse_core ({ l with core := { l.core with lastReceived := some now } } : FLink F) data now
+  dsimp only at key
+  generalize FLink.handleKeepaliveResponse (F := F) _ data now = r at key ⊢
+  obtain ⟨l2, sample⟩ := r
+  dsimp only at key ⊢
+  have rp := recordRttProbe_window l2
+  repeat' split
+  all_goals first
+    | (left; rfl)
+    | (right; exact ⟨hI, rfl⟩)
+    | (left; show l2.recordRttProbe.core.window = l.core.window; rw [rp.1, key])
+    | (left; show l2.core.window = l.core.window; rw [key])
+
+
+/-- `handle_uplink_packet` = (arrival-link bookkeeping that leaves the window alone, or the REG_ERR
+tear-down) followed by the ACK/NAK fan-out `process_connection_events`. -/
+theorem handleUplinkPacket_cases (s : Sys F) (connId : Nat) (data : List UInt8) (now : Nat) :
+    (handleUplinkPacket s connId data now).1 = s ∨
+    ∃ idx l l2 reg1 inc, s.links[idx]? = some l ∧
+      (l2.core.window = l.core.window ∨ (l2.core.window = 20000 ∧ l2.core.connected = false)) ∧
+      (handleUplinkPacket s connId data now).1 =
+        (processConnectionEvents { s with links := setAt s.links idx l2, reg := reg1 } idx inc now).1 := by
+  unfold handleUplinkPacket
+  split
+  · left; rfl
+  · split
+    · left; rfl
+    · rename_i idx _
+      split
+      · left; rfl
+      · rename_i l hl
+        right
+        have hw := processUplinkPacket_window l idx s.reg s.clientKnown data now
+        generalize processUplinkPacket l idx s.reg s.clientKnown data now = r at hw ⊢
+        obtain ⟨l1, reg1, inc⟩ := r
+        dsimp only at hw ⊢
+        cases inc.reg1Send with
+        | none => exact ⟨idx, l, l1, reg1, inc, hl, hw, rfl⟩
+        | some p =>
+          exact ⟨idx, l, { l1 with core := { l1.core with lastSent := some now } }, reg1, inc, hl, hw, rfl⟩
+
+theorem takeBatch_frame (l : FLink F) (now : Nat) :
+    (l.takeBatch now).1.core.window = l.core.window ∧ (l.takeBatch now).1.core.cong = l.core.cong ∧
+    (l.takeBatch now).1.core.connected = l.core.connected ∧ (l.takeBatch now).1.core.phase = l.core.phase := by
+  have hfr := registerFold_frame l.queue l.core
+  dsimp only at hfr
+  obtain ⟨fw, fc, fl, fg, fp⟩ := hfr
+  unfold FLink.takeBatch
+  dsimp only
+  split
+  · exact ⟨rfl, rfl, rfl, rfl⟩
+  · exact ⟨fw, fg, fc, fp⟩
+
+theorem sendConnectionBatch_fst (l : FLink F) (now : Nat) (fn : List Nat) :
+    (sendConnectionBatch l now fn).1 = (l.takeBatch now).1 := by
+  unfold sendConnectionBatch
+  generalize l.takeBatch now = r
+  obtain ⟨l1, batch⟩ := r
+  dsimp only
+  split
+  · rfl
+  · split <;> rfl
+
+theorem flushGo_PW (now : Nat) (ls : List (FLink F)) (fn : List Nat) :
+    PW StampRel ls (flushGo now ls fn).1 := by
+  induction ls generalizing fn with
+  | nil => exact PW_nil _
+  | cons l rest ih =>
+    rw [flushGo]
+    split
+    · have e := sendConnectionBatch_fst l now fn
+      generalize sendConnectionBatch l now fn = r at e ⊢
+      obtain ⟨l1, wire, ok, fn1⟩ := r
+      dsimp only at e ⊢
+      subst e
+      obtain ⟨a, b, c, d⟩ := takeBatch_frame l now
+      exact PW_cons ⟨a, b, c, d⟩ (ih _)
+    · split
+      rename_i r w fn' heq
+      have e := congrArg Prod.fst heq
+      dsimp only at e ⊢
+      rw [← e]
+      exact PW_cons ⟨rfl, rfl, rfl, rfl⟩ (ih _)
+
+/-- The periodic flush moves no window (a failed periodic flush only warns). -/
+theorem flushAllBatches_PW (s : Sys F) (now : Nat) : PW StampRel s.links (flushAllBatches s now).1.links := by
+  unfold flushAllBatches
+  split
+  · exact PW_refl (fun _ => ⟨rfl, rfl, rfl, rfl⟩) _
+  · split
+    rename_i ls w fn heq
+    have e := congrArg Prod.fst heq
+    dsimp only at e ⊢
+    rw [← e]
+    exact flushGo_PW now s.links s.failNext
+
 end scalar3
 
 end Srtla.ClassicRef
